@@ -114,7 +114,10 @@ def plan(tier):
         if 'F3' in kinds:
             mm = max(4, m // 2)
             for j in range(mm):
-                pts.append((si, {'kind': 'F3', 'frac': round(j / mm, 6)}))
+                f = {'kind': 'F3', 'frac': round(j / mm, 6)}
+                if j % 2:
+                    f['exc'] = ('TypeError', 'ValueError', 'KeyError', 'RuntimeError')[(j // 2) % 4]
+                pts.append((si, f))
     return pts
 
 
